@@ -161,6 +161,7 @@ var schemas = map[string][]field{
 	"GStatus":       {{"Code", "Code", kNat}, {"Message", "Message", kStr}, {"Details", "Details", kPtr("StrBox")}},
 	"StrBox":        {},
 	"ErrOptG":       {{"IsAllowUnimplemented", "IsAllowUnimplemented", kBool}, {"IsIgnoreDetails", "IsIgnoreDetails", kBool}},
+	"HolderG":       {{"name", "name", kStr}, {"postChangeHook", "postChangeHook", kPtr("Unit")}, {"opts", "opts", kind{k: "list", s: "Nat", elemNN: true}}},
 	"FlNHG":         {{"BackupNextHopGroup", "BackupNextHopGroup", kPtr("UintBox")}},
 	"UintBox":       {},
 	"FlushErr":      {{"Errs", "Errs", kind{k: "list", s: "Status", elemNN: true}}},
@@ -187,7 +188,7 @@ var leanStruct = map[string]string{
 	"IPv4EntryC": "IPv4EntryC", "IPv6EntryC": "IPv6EntryC", "LabelEntryC": "LabelEntryC", "NHGEntryC": "NHGEntryC", "NHEntryC": "NHEntryC", "AFTOperationC": "AFTOperationC", "ModifyRequestC": "ModifyRequestC",
 	"AFTErrorDetails": "AFTErrorDetails", "AFTResultC": "AFTResultC", "SessionParametersResult": "SessionParametersResult", "ModifyResponseC": "ModifyResponseC", "PendingOp": "PendingOp",
 	"ElectionReqDetails": "ElectionReqDetails", "SessionParamReqDetails": "SessionParamReqDetails", "OpDetailsResults": "OpDetailsResults", "COpResult": "COpResult",
-	"AFTResultList": "(List AFTResultC)", "Bool": "Bool", "pendingQueue": "PendingQueue", "pendingEntry": "PendingEntry", "RibOpResult": "RibOpResult", "OrigTop": "OrigTop", "OrigNHGMember": "OrigNHGMember", "OrigNHG": "OrigNHG", "KeyRIB": "KeyRIB", "GPrefix": "GPrefix", "GLabel": "GLabel", "GId": "GId", "GIndex": "GIndex", "GAFTEntry": "GAFTEntry", "cache": "GetCache", "GetResponseG": "GetResponseG", "ReconEntS": "ReconEnt", "ReconEntN": "ReconEnt", "ReconAfts": "ReconAfts", "ReconNI": "ReconNI", "ReconOp": "ReconOp", "TblEntry": "TblEntry", "NewElem": "NewElem", "NewAfts": "NewAfts", "NewRIB": "NewRIB", "StringValue": "StringValue", "UintValue": "UintValue", "NewTop": "NewTop", "NewNHGMember": "NewNHGMember", "NewNHG": "NewNHG", "FlNHG": "FlNHG", "ErrView": "ErrView", "ClientErrG": "ClientErrG", "GStatus": "GStatus", "StrBox": "String", "ErrOptG": "ErrOptG", "UintBox": "Nat", "FlushErr": "FlushErr", "Nat": "Nat", "Status": "Status",
+	"AFTResultList": "(List AFTResultC)", "Bool": "Bool", "pendingQueue": "PendingQueue", "pendingEntry": "PendingEntry", "RibOpResult": "RibOpResult", "OrigTop": "OrigTop", "OrigNHGMember": "OrigNHGMember", "OrigNHG": "OrigNHG", "KeyRIB": "KeyRIB", "GPrefix": "GPrefix", "GLabel": "GLabel", "GId": "GId", "GIndex": "GIndex", "GAFTEntry": "GAFTEntry", "cache": "GetCache", "GetResponseG": "GetResponseG", "ReconEntS": "ReconEnt", "ReconEntN": "ReconEnt", "ReconAfts": "ReconAfts", "ReconNI": "ReconNI", "ReconOp": "ReconOp", "TblEntry": "TblEntry", "NewElem": "NewElem", "NewAfts": "NewAfts", "NewRIB": "NewRIB", "StringValue": "StringValue", "UintValue": "UintValue", "NewTop": "NewTop", "NewNHGMember": "NewNHGMember", "NewNHG": "NewNHG", "FlNHG": "FlNHG", "HolderG": "HolderG", "ErrView": "ErrView", "ClientErrG": "ClientErrG", "GStatus": "GStatus", "StrBox": "String", "ErrOptG": "ErrOptG", "UintBox": "Nat", "FlushErr": "FlushErr", "Nat": "Nat", "Status": "Status",
 }
 
 func leanType(k kind) string {
@@ -849,6 +850,9 @@ func trExpr(e ast.Expr, en env) val {
 	case *ast.SelectorExpr:
 		r := render(v)
 		if x, ok := en.vars[r]; ok { // state field such as s.curElecID
+			if cur != nil && cur.isState(r) {
+				requireHeld(v.Pos(), en, "read of "+r)
+			}
 			return x
 		}
 		if cur != nil && cur.statusViews {
@@ -1043,6 +1047,10 @@ func trExpr(e ast.Expr, en env) val {
 				els = append(els, trExpr(kv.Key, en).lean)
 			}
 			return val{lean: "[" + strings.Join(els, ", ") + "]", kd: sk}
+		}
+		if at, ok := v.Type.(*ast.ArrayType); ok && len(v.Elts) == 0 && cur != nil && cur.natListTypes[render(at.Elt)] {
+			// a slice of option values that the spec represents by numbers
+			return val{lean: "[]", kd: kind{k: "list", s: "Nat", elemNN: true}}
 		}
 		if at, ok := v.Type.(*ast.ArrayType); ok && len(v.Elts) == 0 && render(at.Elt) == "uint64" {
 			return val{lean: "[]", kd: kind{k: "list", s: "Nat", elemNN: true}}
@@ -2061,6 +2069,38 @@ func atom2(s string) string {
 // trRange: for _, x := range L { body } where the body only updates one accumulator:
 // acc' := L.foldl (fun acc x => body) acc
 func trRange(v *ast.RangeStmt, en env, next cont) string {
+	if v.Tok == token.DEFINE && v.Value == nil {
+		if kid, ok := v.Key.(*ast.Ident); ok {
+			if l := trExpr(v.X, en); l.kd.k == "map" {
+				// for k := range m: the keys of a Go map, in an arbitrary order
+				accs := assignedOuter(v.Body.List)
+				if len(accs) != 1 {
+					fail(v.Pos(), "loop body assigns %d outer variables (exactly one accumulator is supported)", len(accs))
+				}
+				acc, ok := en.vars[accs[0]]
+				if !ok {
+					fail(v.Pos(), "loop accumulator %s is not declared", accs[0])
+				}
+				lets := takeLets()
+				an, xn := fresh("acc"), fresh(kid.Name)
+				inner := en.push()
+				inner.vars[accs[0]] = val{lean: an, kd: acc.kd}
+				inner.declare(kid.Name, val{lean: xn + ".1", kd: mapKey(l.kd)})
+				nEff := len(inner.effects)
+				body := trStmts(v.Body.List, inner, func(e env) string {
+					if len(e.effects) != nEff {
+						fail(v.Pos(), "effect inside a loop")
+					}
+					ls := takeLets()
+					return wrapLets(ls, e.vars[accs[0]].lean)
+				})
+				rn := fresh(accs[0])
+				e1 := en.clone()
+				e1.vars[accs[0]] = val{lean: rn, kd: acc.kd}
+				return wrapLets(append(lets, fmt.Sprintf("let %s := (%s).foldl (fun %s %s => %s) %s", rn, l.lean, an, xn, body, acc.lean)), next(e1))
+			}
+		}
+	}
 	if v.Tok != token.DEFINE || v.Value == nil {
 		fail(v.Pos(), "range form")
 	}
@@ -2396,6 +2436,11 @@ func trCall(c *ast.CallExpr, en env) []val {
 						fail(c.Pos(), "oracle result %s", r)
 					}
 					return trExpr(c.Args[ai], en)
+				}
+				if strings.HasPrefix(r, "#") {
+					// the call stands for a constant (an option value represented by a number)
+					out = append(out, val{lean: r[1:], kd: kNat})
+					continue
 				}
 				if r == "true" {
 					// a declared precondition of the translated function: the call succeeds
@@ -3387,6 +3432,10 @@ func trAssign(a *ast.AssignStmt, en env) env {
 			if mv, isMap := en.vars[render(lv.X)]; isMap && mv.kd.k == "map" {
 				v := vals[i]
 				b, bound := en.bound[v.path]
+				if v.kd.k == "ptr" && v.kd.nn && !bound {
+					// a pointer that is never nil is represented by the struct itself
+					b, bound = v.lean, true
+				}
 				if v.kd.k != "ptr" || v.kd.s != mv.kd.s || !bound {
 					fail(a.Pos(), "the value stored in %s must be a non-nil pointer to %s", render(l), mv.kd.s)
 				}
@@ -3642,6 +3691,19 @@ func trStmts(list []ast.Stmt, en env, k cont) string {
 		if c, ok := v.X.(*ast.CallExpr); ok {
 			if isSkippableCall(c) {
 				return next(lockEffect(c, en, false))
+			}
+			if render(c.Fun) == "sort.Strings" && len(c.Args) == 1 {
+				// sorts the slice in place: the local variable holds the sorted list from here on
+				id, ok := c.Args[0].(*ast.Ident)
+				x, ok2 := en.vars[render(c.Args[0])]
+				if !ok || !ok2 || x.kd.k != "list" || x.kd.s != "String" {
+					fail(c.Pos(), "sort.Strings of %s", render(c.Args[0]))
+				}
+				e1 := en.clone()
+				n := fresh(id.Name)
+				lets := append(takeLets(), fmt.Sprintf("let %s := sortStrings %s", n, atom(x.lean)))
+				e1.vars[id.Name] = val{lean: n, kd: x.kd, path: x.path}
+				return wrapLets(lets, next(e1))
 			}
 			if render(c.Fun) == "delete" && len(c.Args) == 2 {
 				r := render(c.Args[0])
